@@ -523,7 +523,23 @@ impl<'c> Glue<'c> {
 // C16 (a): fault enumeration at formatter level
 // ------------------------------------------------------------------------------------------
 
-const HARD_KINDS: [io::ErrorKind; 3] = [io::ErrorKind::BrokenPipe, io::ErrorKind::StorageFull, io::ErrorKind::Other];
+/// Every kind but `Interrupted` is a hard error for the formatter (surfaced as an I/O error for that entry).
+const HARD_KINDS: [io::ErrorKind; 14] = [
+    io::ErrorKind::BrokenPipe,
+    io::ErrorKind::StorageFull,
+    io::ErrorKind::Other,
+    io::ErrorKind::InvalidInput,
+    io::ErrorKind::InvalidData,
+    io::ErrorKind::WouldBlock,
+    io::ErrorKind::TimedOut,
+    io::ErrorKind::WriteZero,
+    io::ErrorKind::UnexpectedEof,
+    io::ErrorKind::PermissionDenied,
+    io::ErrorKind::ConnectionReset,
+    io::ErrorKind::OutOfMemory,
+    io::ErrorKind::Unsupported,
+    io::ErrorKind::NotFound,
+];
 
 pub struct EmfWriterFaults;
 
@@ -716,13 +732,41 @@ impl Scenario for EmfWriterFaults {
                     if !run_case(w, format!("zero@{i} chunk={chunk}"), &mut r) {
                         break 'outer;
                     }
-                    for kind in HARD_KINDS {
+                    // every kind at the first call; three kinds per later call index, rotating through all of them
+                    let kinds: Vec<io::ErrorKind> = if i == 0 { HARD_KINDS.to_vec() } else { (0..3).map(|j| HARD_KINDS[(i * 3 + j) % HARD_KINDS.len()]).collect() };
+                    for kind in kinds {
                         let mut w = FaultyWriter::perfect();
                         w.chunk = chunk;
                         w.at_call.insert(i, WFault::Hard(kind));
                         if !run_case(w, format!("hard({kind:?})@{i} chunk={chunk}"), &mut r) {
                             break 'outer;
                         }
+                    }
+                }
+            }
+            // storms of Interrupted: long runs at the start / middle / end of the record, and "every other call
+            // is interrupted" for the whole record (progress between interruptions): always retried, never surfaced
+            for (chunk, ncalls) in [(0usize, fault_free_calls), (7, n.div_ceil(7) + fault_free_calls)] {
+                for start in [0usize, ncalls / 2, ncalls.saturating_sub(1)] {
+                    for len in [9usize, 33, 200] {
+                        let mut w = FaultyWriter::perfect();
+                        w.chunk = chunk;
+                        for i in start..start + len {
+                            w.at_call.insert(i, WFault::Interrupted);
+                        }
+                        if !run_case(w, format!("interrupted x{len} from call {start} chunk={chunk}"), &mut r) {
+                            break 'outer;
+                        }
+                    }
+                }
+                for period in [2usize, 3] {
+                    let mut w = FaultyWriter::perfect();
+                    w.chunk = chunk;
+                    for i in (0..period * ncalls + 8).step_by(period) {
+                        w.at_call.insert(i, WFault::Interrupted);
+                    }
+                    if !run_case(w, format!("interrupted at every {period}th call chunk={chunk}"), &mut r) {
+                        break 'outer;
                     }
                 }
             }
@@ -767,7 +811,7 @@ impl Scenario for EmfWriterFaults {
         json!({"real": ["Emf / EmfBuilder / SampledEmf", "EntryWriter::finish", "buf::write_all_vectored / advance_slices", "PrefixedStringBuf"], "simulated_seams": ["io::Write (fault-scripted)", "RngCore (constant)", "hash-map hasher (seeded)"], "harness": ["generated entries", "FaultyWriter"], "stub": []})
     }
     fn rule(&self) -> &'static str {
-        "each run: one seeded (formatter config, entry) pair - single line, multi-namespace or split into several lines, optionally sampled - against which the single-fault families are ENUMERATED: every chunk size 1..min(len,64) (+97,128,255,1000) with and without write_vectored, one short write at every byte offset, Interrupted (once and twice in a row) / Ok(0) / three hard error kinds at every write-call index under two chunkings, plus 8 seeded mixtures. non-trivial = the entry is accepted fault-free; distinct = distinct (config, entry, fault-script list)"
+        "each run: one seeded (formatter config, entry) pair - single line, multi-namespace or split into several lines, optionally sampled - against which the single-fault families are ENUMERATED: every chunk size 1..min(len,64) (+97,128,255,1000) with and without write_vectored, one short write at every byte offset, Interrupted (once and twice in a row) / Ok(0) / hard errors (14 kinds, all at the first call, three rotating per later call) at every write-call index under two chunkings, storms of 9/33/200 consecutive Interrupted at the start/middle/end and every 2nd/3rd call interrupted throughout, plus 8 seeded mixtures. non-trivial = the entry is accepted fault-free; distinct = distinct (config, entry, fault-script list)"
     }
 }
 
@@ -898,7 +942,6 @@ fn check_one_stream(h: &[Ev], stream: u32) -> Option<Violation> {
 }
 
 fn check_sink_faults(plan: &J, h: &[Ev]) -> Option<Violation> {
-    let _ = plan;
     // per stream: every appended entry exactly once, per-thread order
     let mut appended: Vec<u64> = vec![];
     for e in h {
@@ -910,6 +953,44 @@ fn check_sink_faults(plan: &J, h: &[Ev]) -> Option<Violation> {
                 appended.push(*id);
             }
             _ => {}
+        }
+    }
+    // a flush-immediately sink: whatever a stream was handed during an append is flushed before the append returns,
+    // also when the other leg of the tee (or this one) answered with an error - output must not sit in a buffer
+    // until some later entry happens to succeed
+    if js(plan, "kind", "").contains("immediate") {
+        let mut open: BTreeMap<usize, (u64, BTreeMap<u32, bool>)> = BTreeMap::new(); // tid -> (id, stream -> flushed since its next)
+        for e in h {
+            match &e.k {
+                K::AppendBegin { id } => {
+                    open.insert(e.tid, (*id, BTreeMap::new()));
+                }
+                K::NextEnd { stream, report: false, .. } => {
+                    if let Some((_, m)) = open.get_mut(&e.tid) {
+                        m.insert(*stream, false);
+                    }
+                }
+                K::FlushBegin { stream } => {
+                    if let Some((_, m)) = open.get_mut(&e.tid) {
+                        if let Some(f) = m.get_mut(stream) {
+                            *f = true;
+                        }
+                    }
+                }
+                K::AppendEnd { id, .. } => {
+                    if let Some((aid, m)) = open.remove(&e.tid) {
+                        if aid == *id {
+                            if let Some((s, _)) = m.iter().find(|(_, f)| !**f) {
+                                return Some(Violation::new(
+                                    "immediate_sink_did_not_flush",
+                                    format!("the flush-immediately sink returned from the append of p{}#{} without flushing stream {s}, which had been handed the entry", id_thread(*id), id_seq(*id)),
+                                ));
+                            }
+                        }
+                    }
+                }
+                _ => {}
+            }
         }
     }
     for stream in [0u32, 1] {
@@ -1034,7 +1115,7 @@ impl Scenario for SinkFaults {
         json!({"real": ["FlushImmediately / AnyFlushImmediately", "BackgroundQueue", "stream::Tee"], "simulated_seams": ["thread, Parker, Instant (queue)"], "harness": ["RecStream x2 with independent Ok/Validation/Io scripts (non-yielding under FlushImmediately, which holds a std Mutex across next)"], "stub": []})
     }
     fn rule(&self) -> &'static str {
-        "each run: sink kind in {FlushImmediately, boxed FlushImmediately, BackgroundQueue} over a tee of two recording streams with independent per-entry Ok/Validation/Io scripts and flush errors, 1-3 appending threads x 1-8 entries; oracle: each stream receives every appended entry exactly once in per-producer order, append never panics. non-trivial = >= 2 threads and >= 1 preemption; distinct = distinct (context-switch signature, scripts)"
+        "each run: sink kind in {FlushImmediately, boxed FlushImmediately, BackgroundQueue} over a tee of two recording streams with independent per-entry Ok/Validation/Io scripts and flush errors, 1-3 appending threads x 1-8 entries; oracle: each stream receives every appended entry exactly once in per-producer order, append never panics, a flush-immediately sink flushes every stream it handed the entry to before the append returns (whatever the results). non-trivial = >= 2 threads and >= 1 preemption; distinct = distinct (context-switch signature, scripts)"
     }
 }
 
@@ -1182,7 +1263,7 @@ impl Scenario for Pipeline {
             let at = rng.below(12 * threads * per + 4);
             faults.push(match rng.below(6) {
                 5 => json!({"at": at, "f": "flush_fail"}),
-                0 => json!({"at": at, "f": "hard", "kind": rng.below(3)}),
+                0 => json!({"at": at, "f": "hard", "kind": rng.below(HARD_KINDS.len() as u64)}),
                 1 => json!({"at": at, "f": "zero"}),
                 2 => json!({"at": at, "f": "short", "k": 1 + rng.below(40)}),
                 _ => json!({"at": at, "f": "intr"}),
